@@ -23,14 +23,14 @@ def member_params(i):
     if i == 0:
         return demo
     p = dict(demo)
-    kinds = ['rename_keys', 'rename_types', 'separators', 'vocab', 'insert_level', 'third_basetype', 'third_path', 'leaf', 'pin_intermediate', 'two_branches', 'no_default_leaf', 'third_mapping']
+    kinds = ['rename_keys', 'rename_types', 'separators', 'vocab', 'insert_level', 'third_basetype', 'third_path', 'leaf', 'pin_intermediate', 'two_branches', 'no_default_leaf', 'third_mapping', 'underscore_keys', 'upper_alias']
     chosen = set(rng.sample(kinds, rng.randint(2, 5)))
     if i == 1:
         chosen = {'rename_keys', 'leaf', 'rename_types'}
     if i == 2:
         chosen = {'separators', 'vocab', 'insert_level', 'third_path'}
     if i == 3:
-        chosen = {'third_basetype', 'vocab', 'rename_types'}
+        chosen = {'third_basetype', 'vocab', 'rename_types', 'underscore_keys', 'upper_alias'}
     if i == 4:
         chosen = {'pin_intermediate', 'two_branches', 'no_default_leaf', 'leaf', 'rename_keys', 'third_mapping'}
     if 'rename_keys' in chosen:
@@ -50,6 +50,15 @@ def member_params(i):
                  scenes=['ma', 'blend', 'nk', 'maya'], caches=['abc', 'vdb', 'cache'], movies=['mp4', 'mov', 'movie'],
                  alias={'cache': ['abc', 'vdb'], 'maya': ['ma'], 'movie': ['mp4', 'mov']},
                  projects=[('macbeth', 'MACBETH'), ('lear', 'KING_LEAR')])
+    if 'underscore_keys' in chosen:
+        # key names holding the character of the type separator (the keytype of an extrapolated type among them)
+        p.update(state='pub_status', task='work_step')
+    if 'upper_alias' in chosen:
+        # alias names that are not lower case
+        ren = {a: (a.upper() if j % 2 == 0 else a.capitalize()) for j, a in enumerate(sorted(p['alias']))}
+        p['alias'] = {ren[a]: list(ms) for a, ms in p['alias'].items()}
+        for lst in ('scenes', 'caches', 'movies'):
+            p[lst] = [ren.get(x, x) for x in p[lst]]
     if 'insert_level' in chosen:
         p['episode'] = ('episode', 'ep', 2)
     if 'third_basetype' in chosen:
